@@ -58,7 +58,7 @@ def check_one(ast: dict, text: str, res: dict, drv: core.Driver) -> list[tuple[s
 
 def run(run: core.Run) -> int:
     from .. import impl_es, astdump
-    n = 1200 if run.tier == "quick" else 16000
+    n = 2500 if run.tier == "quick" else 16000
     prep = core.lean_prepare(MODULES)
     aud = core.audit(THEOREMS, MODULES) if prep["proofs_ok"] else {"obligations": len(THEOREMS), "discharged": 0, "ok": False, "theorems": {}}
     jobs = core.jobs_for(run.tier)
